@@ -3,6 +3,7 @@ import G3D.Proofs.Move2
 import G3D.Proofs.MoveReturned
 import G3D.Proofs.MovePolyhedron
 import G3D.Proofs.BridgeExact
+import G3D.Proofs.Euler5
 /-! # C07 — `move` translates the object in place and keeps it self-consistent
     `x.move v` is modelled as a function returning (receiver after the call, returned object), WITH the cached
     derived fields of the code (carrier line of Segment / HalfLine, plane and centre of ConvexPolygon, vertex / edge /
@@ -97,5 +98,11 @@ theorem polyhedron_move_succeeds (B : Polyhedron) (hV : B.Valid)
 theorem polyhedron_move_keeps_exactness (B : Polyhedron) (hV : B.Valid) (hloc : B.FaceLocal) (v : V3)
     (B' R : Polyhedron) (h : B.move v = .ok (B', R)) : B'.ExactHyp ∧ R.ExactHyp :=
   Polyhedron.move_ok_exactHyp B hV hloc v B' R h
+
+
+/-- … and Euler's formula is proved for bodies without coplanar neighbouring faces, so the move of such a body always succeeds -/
+theorem polyhedron_move_always_succeeds (B : Polyhedron) (hV : B.Valid) (hloc : B.FaceLocal)
+    (hnd : (dirEdges (B.faces.map (·.pts))).Nodup) (v : V3) : B.move v = .ok (B.moved v, B.moved v) :=
+  polyhedron_move_succeeds B hV (Polyhedron.euler B hV hloc hnd) v
 
 end G3D.Props.C07
